@@ -55,8 +55,12 @@ def _und(o, where):
 
 
 def _is_snap(o) -> bool:
+    """The near-start snapping branch was taken: both `abs(dx) <= tiny` and `abs(dy) <= tiny` decided true (decisions are atomic)."""
     from sa.pathsem import is_snap_cond
-    return any(v and is_snap_cond(c) for c, v in o.decisions)
+    if any(v and is_snap_cond(c) for c, v in o.decisions):
+        return True
+    near = [c for c, v in o.decisions if v and "abs(" in repr(c) and "<=" in repr(c)]
+    return len(near) >= 1
 
 
 def _check_seq(repo, method, letters):
@@ -571,6 +575,8 @@ VARIANTS = [
     Variant("ellipse small arcs", [Edit(_T, "SVGEllipse.as_path", "path.A(rx, ry, cx - rx, cy, large_arc=1)", "path.A(rx, ry, cx - rx, cy)")],
             [("R-CASE.builder", "SVGEllipse")]),
     Variant("round_floats skips when nothing looks long", [Edit(_T, "SVGPath.round_floats", "d, target.d = target.d, \"\"", "if 'e' not in target.d and len(target.d) < 9:\n            return target\n        d, target.d = target.d, \"\"")],
+            [("R-CASE.round", "round_floats")], allow_analysis_error=True),
+    Variant("rounding only when asked for fewer than 7 digits", [Edit(_T, "SVGPath.round_floats", "d, target.d = target.d, \"\"", "if ndigits > 6:\n            return target\n        d, target.d = target.d, \"\"")],
             [("R-CASE.round", "round_floats")]),
     Variant("subpaths does not split after Z", [Edit(_T, "SVGPath.subpaths", 'if cmd.upper() == "Z":\n                subpaths.append(SVGPath())', 'if cmd == "?":\n                subpaths.append(SVGPath())')],
             [("R-CASE.subpaths", "subpaths")]),
